@@ -1190,7 +1190,7 @@ func genAll(r *rand.Rand, tier string, emit func(core.Case)) {
 		emit(genClaimReplay(r))
 	}
 	// restarts through the real fast-sync hand-over with a real WAL (about 1 s per restart)
-	nRestart := 8
+	nRestart := 6
 	if tier == "thorough" {
 		nRestart = 60
 	}
